@@ -1,5 +1,6 @@
 #!/usr/bin/env python3
 """selftest.py determinism [PROP ...] [--seeds N]
+   selftest.py simfs
 
 Proves that a run is a pure function of its seed: for every harness the same
 run indices are executed
@@ -49,8 +50,26 @@ def spread(exe, tier, base, count, workers, tag):
     return merged
 
 
+def simfs_test():
+    """the simulated file layer answers the calls of libstdc++'s std::filesystem and of
+    plain POSIX clients (sim/test_simfs.cpp)"""
+    exe = os.path.join(simdrv.VERIF, "build", "test_simfs")
+    cmd = ["clang++", "-std=c++17", "-g", "-O1", "-I" + simdrv.VERIF, "-fsanitize=address",
+           os.path.join(simdrv.VERIF, "sim", "test_simfs.cpp"), os.path.join(simdrv.VERIF, "sim", "simfs.cpp"),
+           os.path.join(simdrv.VERIF, "sim", "budget.cpp"), "-ldl", "-o", exe]
+    p = subprocess.run(cmd, capture_output=True, text=True)
+    if p.returncode != 0:
+        print(p.stderr[-2000:])
+        return 2
+    p = subprocess.run([exe], capture_output=True, text=True, env=simdrv.harness_env())
+    print(p.stdout.strip())
+    return 0 if p.returncode == 0 else 2
+
+
 def main():
     args = sys.argv[1:]
+    if args and args[0] == "simfs":
+        return simfs_test()
     if not args or args[0] != "determinism":
         print(__doc__)
         return 2
